@@ -467,6 +467,8 @@ pub mod parser;
 pub mod platform;
 pub mod string_dict;
 pub mod value;
+#[cfg(tsrun_verif)]
+pub mod verif_hooks;
 
 // C FFI module (only when c-api feature is enabled)
 #[cfg(feature = "c-api")]
